@@ -1,0 +1,24 @@
+//! Verification hooks (only compiled with the `verif-hooks` cargo feature).
+//!
+//! A single process-wide callback that is invoked at named points of a build.
+//! It is used by an external controlled scheduler to explore interleavings of
+//! concurrent builds; with no callback installed a point is one atomic load.
+
+use std::sync::atomic::{AtomicUsize, Ordering};
+
+static HOOK: AtomicUsize = AtomicUsize::new(0);
+
+/// Install (or remove, with `None`) the callback invoked at every point.
+pub fn set(hook: Option<fn(&'static str)>) {
+    HOOK.store(hook.map(|f| f as usize).unwrap_or(0), Ordering::SeqCst);
+}
+
+/// A named point of a build.
+#[inline]
+pub fn point(tag: &'static str) {
+    let raw = HOOK.load(Ordering::SeqCst);
+    if raw != 0 {
+        let f: fn(&'static str) = unsafe { std::mem::transmute(raw) };
+        f(tag);
+    }
+}
